@@ -3,6 +3,7 @@ module verif/harness
 go 1.21
 
 require (
+	github.com/moby/patternmatcher v0.5.0
 	github.com/opencontainers/go-digest v1.0.0
 	github.com/pkg/errors v0.9.1
 	github.com/tonistiigi/fsutil v0.0.0
@@ -11,7 +12,6 @@ require (
 
 require (
 	github.com/containerd/continuity v0.4.1 // indirect
-	github.com/moby/patternmatcher v0.5.0 // indirect
 	github.com/planetscale/vtprotobuf v0.6.0 // indirect
 	github.com/sirupsen/logrus v1.8.1 // indirect
 	github.com/tonistiigi/dchapes-mode v0.0.0-20250318174251-73d941a28323 // indirect
